@@ -17,10 +17,10 @@ type Profile struct {
 	NoWtxnNext bool // Next never gets an open WriteTxn (C02-B)
 	Unlocked bool // allow writes aimed at tables the transaction does not hold
 	MaxMin   int
-	// Preamble: with probability 1/2 the case starts with these operations (a
-	// scenario that makes the interesting region reachable); the generated
-	// operations follow. The whole list still shrinks as one value.
-	Preamble []Op
+	// Preambles: with probability 1/2 the case starts with one of these operation
+	// lists (scenarios that make the interesting region reachable); the
+	// generated operations follow. The whole list still shrinks as one value.
+	Preambles [][]Op
 }
 
 var keyAlphabet = []byte{0x00, 0x01, 0x02, 'a', 0xff}
@@ -173,8 +173,9 @@ func genCase(t *rapid.T, p Profile) Case {
 		mm = 25
 	}
 	c.Ops = vk.Ops(t, genOp(p, n), mm, "ops")
-	if len(p.Preamble) > 0 && rapid.Bool().Draw(t, "preamble") {
-		c.Ops = append(append([]Op{}, p.Preamble...), c.Ops...)
+	if len(p.Preambles) > 0 && rapid.Bool().Draw(t, "preamble") {
+		pre := p.Preambles[rapid.IntRange(0, len(p.Preambles)-1).Draw(t, "whichPreamble")]
+		c.Ops = append(append([]Op{}, pre...), c.Ops...)
 	}
 	return c
 }
